@@ -707,7 +707,7 @@ fn c19() -> PureResult {
 
 pub fn run(prop: &str, tier: &str, known: &[crate::runner::Known]) -> Option<PureResult> {
     match prop {
-        "C07" => Some(c07(tier, known)),
+        "C07" | "C20" => Some(c07(prop, tier, known)),
         "C11" | "C12" | "C19" => Some(run_isolated(prop)),
         _ => None,
     }
@@ -822,9 +822,14 @@ fn run_isolated(prop: &str) -> PureResult {
 
 // ------------------------------------------------------------------------------------ C07
 
-fn c07(tier: &str, known: &[crate::runner::Known]) -> PureResult {
+/// The grid of child processes. For C07: every shape, size, stack and context. For C20: the part
+/// of it that is about thread tear-down at scale - the structures whose every release is a
+/// library call of its own (fan-out, pool), released from a thread-local destructor after the
+/// thread's participant handle is gone.
+fn c07(prop: &str, tier: &str, known: &[crate::runner::Known]) -> PureResult {
     use std::sync::{Arc, Mutex};
     let quick = tier == "quick";
+    let prop_s: &'static str = if prop == "C20" { "C20" } else { "C07" };
     let ns: Vec<usize> = if quick {
         vec![1000, 1023, 1025, 10_000, 100_000]
     } else {
@@ -848,6 +853,17 @@ fn c07(tier: &str, known: &[crate::runner::Known]) -> PureResult {
     for &n in ns.iter().filter(|&&n| n >= 10_000 && n <= 1_000_000) {
         for &st in [0usize, 2048, 512].iter() {
             cases.push((0, n, st, 2));
+        }
+    }
+    if prop_s == "C20" {
+        cases.clear();
+        let c20_ns: Vec<usize> = if quick { vec![10_000, 300_000] } else { vec![10_000, 300_000, 1_000_000] };
+        for shape in [5usize, 7] {
+            for &n in c20_ns.iter() {
+                for &st in [0usize, 2048, 512, 256].iter() {
+                    cases.push((shape, n, st, 1));
+                }
+            }
         }
     }
     let total = cases.len();
@@ -880,12 +896,15 @@ fn c07(tier: &str, known: &[crate::runner::Known]) -> PureResult {
     }
     let mut r = PureResult {
         exhaustive: true,
-        rule: "every point of the grid shape {chain, left comb, right comb, balanced tree, spine with leaves, three-level fan-out whose edges are released by destructors instead of pop_edges (default and tight collection knobs: flush every 2nd decrement, 4 closures per bag)} x n x thread stack size x reclaiming context {plain call, thread-local destructor at thread exit}; each case is a child process that builds the structure iteratively, ages the links, drops the head on a thread with that stack and runs rounds; distinct = distinct grid points".into(),
+        rule: "every point of the grid shape {chain, left comb, right comb, balanced tree, spine with leaves, three-level fan-out whose edges are released by destructors instead of pop_edges (default and tight collection knobs: flush every 2nd decrement, 4 closures per bag), pool of n independent nodes} x n x thread stack size x reclaiming context {plain call, thread-local destructor at thread exit}; each case is a child process that builds the structure iteratively, ages the links, drops the head on a thread with that stack and runs rounds; distinct = distinct grid points".into(),
         bounds: json!({"n": ns, "stack_kib": stacks, "contexts": ["call", "tls-destructor", "call with weak-pointer traffic colliding with the cascade (chain, n >= 10^4)"], "profile": "release, feature circ_verif compiled in but no hooks installed"}),
         assumptions: vec!["frame sizes are those of this build (release, hooks compiled in but inactive)".into()],
         ..Default::default()
     };
-    let mut acc = Acc::new("C07", "stack");
+    if prop_s == "C20" {
+        r.rule = "thread tear-down at scale: {three-level fan-out with destructor-released edges, pool of n independent nodes} x n x thread stack size, released from a thread-local destructor that runs after the library's own (every release then registers and retires a temporary participant); each case is a child process; the thread must exit normally and everything must be reclaimed".into();
+    }
+    let mut acc = Acc::new(prop_s, "stack");
     let res = results.lock().unwrap();
     if res.len() != total {
         r.machinery.push(format!("only {} of {} cases ran", res.len(), total));
@@ -901,7 +920,7 @@ fn c07(tier: &str, known: &[crate::runner::Known]) -> PureResult {
             other => {
                 // killed by a signal (stack overflow aborts the process) or panicked
                 let scen = if c.2 != 0 && c.2 <= 128 { "c07/stack<=128KiB" } else { "c07/stack>128KiB" };
-                match known.iter().position(|k| crate::runner::known_match(k, "C07", scen, "stack-overflow")) {
+                match known.iter().position(|k| crate::runner::known_match(k, prop_s, scen, "stack-overflow")) {
                     Some(i) => r.known_hits.push(i),
                     None => acc.fail("stack-overflow", format!("{}: child process died ({:?}) {}", desc, other, text)),
                 }
